@@ -7,6 +7,7 @@ import Driver.TimeRange
 import Driver.Script
 import SlacModel.Display
 import SlacModel.Json
+import SlacModel.JsonText
 import SlacModel.Optimizer
 import SlacModel.Registry
 import SlacModel.Parser
@@ -222,6 +223,29 @@ def runScan : List String → Option String
   | [h] => some (showCOutToks (Scanner.scan charClass (unhex h)))
   | _ => none
 
+/-- FNV-1a over the bytes of an answer -/
+def fnv (d : UInt64) (s : String) : UInt64 := s.toUTF8.foldl (fun d b => (d ^^^ b.toUInt64) * 0x100000001B3) d
+
+def kwList : List Str := [['a','n','d'], ['o','r'], ['x','o','r'], ['n','o','t'], ['d','i','v'], ['m','o','d'], ['t','r','u','e'], ['f','a','l','s','e']]
+
+/-- the texts of one code point in the `scanchars` stream (mirror of harness lang.rs `scan_contexts`) -/
+def scanContexts (c : Char) : List Str :=
+  [[c], ['a', c], [c, 'a'], ['1', c], ['1', '.', c], ['\'', c, '\''], [c, ' ', c]] ++
+  kwList.flatMap fun kw => [false, true].flatMap fun up =>
+    let base := if up then kw.map Char.toUpper else kw
+    (List.range base.length).map fun i => base.set i c
+
+def runScanRange : List String → Option String
+  | [s, c] =>
+    let s := s.toNat!; let c := c.toNat!
+    let d := (List.range c).foldl (fun (d : UInt64) i =>
+      let cp := s + i
+      if cp < 0xD800 || (0xDFFF < cp && cp < 0x110000) then
+        (scanContexts (Char.ofNat cp)).foldl (fun d t => fnv d (showCOutToks (Scanner.scan charClass t))) d
+      else d) 0xcbf29ce484222325
+    some s!"viol 0 digest {TimeRange.hex16 d}"
+  | _ => none
+
 /-- `slac::compile` = tokenize, then compile_ast -/
 def compileModel (src : Str) : COut Float Ex :=
   match Scanner.scan (N := Float) charClass src with
@@ -309,7 +333,12 @@ def runJson (r : List String) : Option String := do
   let rt := match Json.toExpr jnFloat j with
     | some e' => if showExpr e' == showExpr e then "same" else "differs"
     | none => "err"
-  pure s!"{canonJson j} ; {rt} ; {rt}"
+  -- the text route: print (serde_json::to_string), parse back with the depth-limited reader (serde_json::from_str), decode
+  let text := JsonText.printJson j
+  let rtText := match (JsonText.parseJson text).bind (Json.toExpr jnFloat) with
+    | some e' => if showExpr e' == showExpr e then "same" else "differs"
+    | none => "err"
+  pure s!"{canonJson j} ; {rt} ; {rtText} ; text {hex text}"
 
 def step (line : String) : String :=
   let r := match (line.trimAscii.toString.splitOn " ").filter (· ≠ "") with
@@ -329,6 +358,7 @@ def step (line : String) : String :=
     | "rr" :: r => runRr r
     | "re" :: r => runRe r
     | "tmrange" :: r => TimeRange.run r
+    | "scanrange" :: r => runScanRange r
     | "script" :: r => Script.run charClass caseMap r
     | "chkbool" :: r => runChkbool r
     | _ => none
